@@ -118,7 +118,7 @@ int main(int argc, char** argv) {
          for (size_t i = 0; i < cfg.args.size(); ++i) if (cfg.args[i].multival) { Use u; u.arg = int(i); u.hasval = true; u.val = "1"; u.more = {"2", "3"}; alpha.push_back(u); }
          check_line(rc, block_of, {}, 0, vf::current_case());
          // lines of 3 uses also in the quick tier where the ORDER of uses across member handlers matters (multi-value argument, flag, free value)
-         const int maxd = (th || rc.family == "multival-positional") ? 3 : 2;
+         const int maxd = vf::deep() ? 4 : (th || rc.family == "multival-positional") ? 3 : 2;
          for (int d = 1; d <= maxd; ++d) {
             vf::Odometer od(std::vector<unsigned>(d, unsigned(alpha.size())));
             while (od.next()) { std::vector<Use> uses; for (int i = 0; i < d; ++i) uses.push_back(alpha[od[i]]); check_line(rc, block_of, uses, d <= 2 ? 1 : 0, vf::current_case()); }
